@@ -6,9 +6,12 @@ package main
 import (
 	"fmt"
 	"os"
+	"os/signal"
 	"sort"
+	"syscall"
 
 	"verif/internal/core"
+	"verif/internal/impl"
 )
 
 type checkFn func(c *core.Ctx)
@@ -45,9 +48,18 @@ func main() {
 		}
 	}
 	code := 0
+	// the private Go build cache of this process is removed on every way out
+	sig := make(chan os.Signal, 1)
+	signal.Notify(sig, syscall.SIGINT, syscall.SIGTERM)
+	go func() {
+		<-sig
+		impl.CleanupCache()
+		os.Exit(2)
+	}()
 	func() {
 		defer func() {
 			if r := recover(); r != nil {
+				impl.CleanupCache()
 				// a harness failure is not a verdict about the property: report it
 				// loudly, exit 2 (neither "held" nor "violation")
 				fmt.Fprintf(os.Stderr, "HARNESS ERROR in %s: %v\n", id, r)
@@ -60,5 +72,6 @@ func main() {
 	if code == 0 {
 		code = c.Finish()
 	}
+	impl.CleanupCache()
 	os.Exit(code)
 }
